@@ -120,8 +120,11 @@ class Sub:
         doc="",
         exhaustive=False,
         frames=None,
+        reps=(1, 1),
     ):
         self.name = name
+        # reps: independent Hypothesis runs (own seed, own process slot) per stratum
+        self.reps = reps
         self.check = check
         self.strata = strata or (lambda tier: [{"id": "all"}])
         self.strategy = strategy
@@ -268,7 +271,7 @@ def _eval_case(prop, sub, case, stats, open_known):
 
 
 def run_unit(args):
-    prop, subname, sidx, tier, seed = args
+    prop, subname, sidx, tier, seed, rep = args
     t0 = time.time()
     stats = UnitStats()
     out = dict(prop=prop, sub=subname, sidx=sidx)
@@ -281,7 +284,7 @@ def run_unit(args):
         if sub.cases is not None and sub.strategy is None:
             _run_enumerated(prop, sub, stratum, tier, stats, open_known)
         else:
-            _run_generated(prop, sub, stratum, tier, seed, stats, open_known)
+            _run_generated(prop, sub, stratum, tier, seed, stats, open_known, rep)
     except Exception:  # harness error, never a violation
         stats.errors.append(traceback.format_exc())
     out.update(stats.as_dict())
@@ -305,11 +308,12 @@ def _run_enumerated(prop, sub, stratum, tier, stats, open_known):
         )
 
 
-def _run_generated(prop, sub, stratum, tier, seed, stats, open_known):
+def _run_generated(prop, sub, stratum, tier, seed, stats, open_known, rep=0):
+    rtag = "@%d" % rep
     if sub.frames is None:
-        return _run_given(prop, sub, stratum, tier, seed, stats, open_known, None, "")
+        return _run_given(prop, sub, stratum, tier, seed, stats, open_known, None, rtag)
     for i, frame in enumerate(sub.frames(stratum, tier)):
-        _run_given(prop, sub, stratum, tier, seed, stats, open_known, frame, "#%d" % i)
+        _run_given(prop, sub, stratum, tier, seed, stats, open_known, frame, "#%d%s" % (i, rtag))
         if len(stats.violations) >= 3:
             break
 
@@ -425,8 +429,12 @@ def run_property(prop, tier):
     subs = [s for s in mod.SUBS if not only or s.name in only.split(",")]
     units = []
     for s in subs:
+        nrep = s.reps[0] if tier == "quick" else s.reps[1]
+        if s.cases is not None and s.strategy is None:
+            nrep = 1
         for i, _ in enumerate(s.strata(tier)):
-            units.append((prop, s.name, i, tier, seed))
+            for rep in range(nrep):
+                units.append((prop, s.name, i, tier, seed, rep))
     # interleave sub-checks so that expensive ones do not all come last
     units.sort(key=lambda u: (u[2], u[1]))
     cdir = os.path.join(ROOT, "replays", "corpus", prop)
